@@ -10,6 +10,7 @@ import (
 	"go/ast"
 	"go/parser"
 	"go/token"
+	"math/rand"
 	"regexp"
 	"sort"
 	"strconv"
@@ -205,9 +206,19 @@ func c07Units(g *ggen, i int) []c07Unit {
 		default: // package_info declaring a type name of the pool
 			p1 := pick()
 			us = append(us, c07Unit{
-				src:   fmt.Sprintf("package_info ext%s =\n  type %s\n  let Mk%s: ()->%s\n  let Use%s: %s->int\n\nlet useExt%s () =\n  ext%s.Use%s (ext%s.Mk%s ())\n\n", id, p1, id, p1, id, p1, id, id, id, id, id),
-				decls: []string{"func useExt" + id}, after: -1,
+				// keepExt shows the type the signatures resolved to (the package's, whatever else is called p1)
+				src: fmt.Sprintf("package_info ext%s =\n  type %s\n  let Mk%s: ()->%s\n  let Use%s: %s->int\n\nlet useExt%s () =\n  ext%s.Use%s (ext%s.Mk%s ())\n\n", id, p1, id, p1, id, p1, id, id, id, id, id) +
+					fmt.Sprintf("let keepExt%s () =\n  ext%s.Mk%s ()\n\n", id, id, id),
+				decls: []string{"func useExt" + id, "func keepExt" + id}, after: -1,
 			})
+			if g.r.Intn(2) == 0 {
+				// a root VALUE that is a lambda whose parameter is spelled like that package: the
+				// parameter is bound inside the lambda only, wherever the definition stands
+				us = append(us, c07Unit{
+					src:   fmt.Sprintf("let shadow%s = fun ext%s -> ext%s + 1\n\n", id, id, id),
+					decls: []string{"var shadow" + id}, after: -1,
+				})
+			}
 		}
 	}
 	return us
@@ -440,4 +451,64 @@ func c07LongHistory(g *ggen, i int) string {
 		sb.WriteString(fmt.Sprintf("let lmat%d_%d (v: %sC) (n: int) =\n  let r = match v with\n          | %sC0 -> if n > 1 then n else 0\n          | %sC1 d -> n + 1\n  r + 1\n\n", i, k, p, p, p))
 	}
 	return sb.String()
+}
+
+// ---- the type-info key (stream c07.key)
+
+func c07ParseFType(text string) (ft FType, ok bool) {
+	defer func() {
+		if r := recover(); r != nil {
+			ok = false
+		}
+	}()
+	if c15PS == nil {
+		ps := initParse(c15Prelude)
+		ps2, _ := parseAll(ps)
+		c15PS = &ps2
+	}
+	r := parseType(psSetNewSrc(text, *c15PS))
+	return r.E1, true
+}
+
+// generic instances name<arg…> with random type arguments (tuples, function types, nested generic
+// instances, slices, unit): the real encodedKey vs the model's, and whether the Go texts of the
+// arguments are in the class for which the key is PROVED injective (encodedKey_inj_balanced);
+// directly: two different instances never share a key
+func vC07Key(seed int64, count int, extra []string) {
+	r := rand.New(rand.NewSource(seed))
+	names := []string{"Pair", "Entry", "Res_x", "A_B", "A", "Opt", "frt.Tuple2", "Dict"}
+	arity := map[string]int{}
+	seen := map[string]string{}
+	for i := 0; i < count; i++ {
+		name := names[r.Intn(len(names))]
+		n, fixed := arity[name]
+		if !fixed {
+			n = r.Intn(4)
+			arity[name] = n // a type name has one arity
+		}
+		var targs []FType
+		var hexes []string
+		var texts []string
+		for j := 0; j < n; j++ {
+			t := c15Rand(r, 1+r.Intn(3), true)
+			var o c15Out
+			t.render(&o, 0, r, 2)
+			ft, ok := c07ParseFType(o.text.String())
+			if !ok {
+				ft = New_FType_FInt
+			}
+			targs = append(targs, ft)
+			texts = append(texts, FTypeToGo(ft))
+			hexes = append(hexes, vsxStr(FTypeToGo(ft)))
+			vstat("key.arg." + t.kind)
+		}
+		key := encodedKey(name, targs)
+		vEmitIO(vsx("c07.key", vsxStr(name), vsx(hexes...)), vsx("key", vsxStr(key), "items"))
+		vstat("key.arity" + strconv.Itoa(n))
+		inst := name + "\x00" + strings.Join(texts, "\x00")
+		if prev, ok := seen[key]; ok && prev != inst {
+			vViolation(map[string]any{"kind": "two different generic instances share one type-info key", "key": key, "instance1": strings.Split(prev, "\x00"), "instance2": strings.Split(inst, "\x00")})
+		}
+		seen[key] = inst
+	}
 }
